@@ -1,4 +1,6 @@
 import FrappyProofs.Lemmas.Activate
+import FrappyProofs.Lemmas.ActivateSnap
+import FrappyProofs.Lemmas.ActivateLoss
 /-
 C08 — property theorems (nothing but property theorems and their non-vacuity examples).
 
@@ -15,6 +17,20 @@ that is still possibly in force.  All interleavings, any number of connections a
 theorem silent_after_deactivate (cfg : Cfg) (hs : Conn → List Req) (us : Nat → List (Mod × Par × Entry))
     (cache : Mod → Par → Entry) (σ : State) (h : Reach cfg (init hs us cache) σ) : Silent σ.trace :=
   (silentInv_reach cfg hs us cache σ h).acc
+
+/-- Between an `activate s` request and its `active` reply the connection is sent one update for every
+exported parameter in scope `s`, and every update ever delivered (snapshot or broadcast) carries the value
+the cache holds at the moment of delivery — also when the activation races with updaters. -/
+theorem snapshot_complete (cfg : Cfg) (hs : Conn → List Req) (us : Nat → List (Mod × Par × Entry))
+    (cache : Mod → Par → Entry) (σ : State) (h : Reach cfg (init hs us cache) σ) :
+    SnapshotComplete cfg cache σ.trace :=
+  snapshotComplete_reach cfg hs us cache σ h
+
+/-- An update emitted while a connection's activation covering the parameter is firmly in force (after
+its `active` reply, no ending request started) reaches that connection before the assignment returns. -/
+theorem no_loss (cfg : Cfg) (hs : Conn → List Req) (us : Nat → List (Mod × Par × Entry))
+    (cache : Mod → Par → Entry) (σ : State) (h : Reach cfg (init hs us cache) σ) : NoLoss cfg σ.trace :=
+  noLoss_reach' cfg hs us cache σ h
 
 /-- A request of connection `c`, and every action of an updater, leaves the scopes of all other connections
 as they are. -/
